@@ -38,7 +38,40 @@ func GenPlan(family string, seed uint64) *Plan {
 		p.Bucket = "leaders"
 	}
 	bareConfig(p, seed)
+	sameIDConfig(p, seed)
 	return p
+}
+
+// sameIDConfig: in one plan out of eight of some families two instances of a group share one
+// InstanceID (a replacement process started under the old name while the old process is still
+// alive - paused, partitioned - and comes back). Only the fencing token tells the two apart.
+// Such plans are judged by the oracles that identify writers by election object and token
+// (C01, C05, C10's safety clause, C13); the oracles with time bounds attribute goroutines to
+// instances through the InstanceID and are switched off for them.
+func sameIDConfig(p *Plan, seed uint64) {
+	switch p.Family {
+	case "mixed", "pause", "c05ack", "c10":
+	default:
+		return
+	}
+	r := NewRng(seed, "sameid/"+p.Family)
+	if !r.Bool(1.0/8) || len(p.Insts) < 2 {
+		return
+	}
+	i := r.Intn(len(p.Insts))
+	var same []int
+	for j := range p.Insts {
+		if j != i && p.Insts[j].Group == p.Insts[i].Group {
+			same = append(same, j)
+		}
+	}
+	if len(same) == 0 {
+		return
+	}
+	j := same[r.Intn(len(same))]
+	p.Insts[j].ID = p.Insts[i].ID
+	p.NoJudge = append(p.NoJudge, "C02", "C03", "C04", "C06", "C07", "C08", "C09", "C11", "C12", "C17", "C18", "C19")
+	p.Note += " same-id"
 }
 
 // bareConfig: in one plan out of six some instances are configured without the optional Metrics
